@@ -35,8 +35,9 @@ impl TableBuilder for Program {
         if let Some(entry) = table.lookup("main").as_ref() {
             if let GlobalEntry::Procedure(main) = &entry {
                 if !main.parameters.is_empty() {
+                    // the range of the name is relative to the declaration of `main`
                     self.info.append_error(SplError(
-                        main.name.to_range(),
+                        main.name.to_range().shift(main.range.start),
                         BuildErrorMessage::MainMustNotHaveParameters.into(),
                     ));
                 }
